@@ -160,11 +160,7 @@ ob('C01.acc.pal', ['C01', 'C15'], 'ska_dict/acc', 'acc_palindrome', functions=[S
 
 # ------------------------------------------------------------------ C03.new / C02.cols / C07
 MD = 'src/merge_ska_dict.rs::MergeSkaDict::'
-for (nm, fn, tier, nk, ns, tmo) in [('2x2', 'append_new_2x2', 'thorough', 2, 2, 3600), ('2x2.swapped', 'append_new_2x2_swapped', 'thorough', 2, 2, 3600), ('3x3', 'append_new_3x3', 'thorough', 3, 3, 7200), ('3x3.perm', 'append_new_3x3_perm', 'thorough', 3, 3, 7200)]:
-    ob('C03.new.' + nm, ['C03', 'C02', 'C01', 'C07'], 'merge_ska_dict/append', fn, tier=tier, functions=[MD + 'new', MD + 'append', MA + 'new', MA + 'n_sample_kmers', MA + 'iter'], inst='u64',
-       needs_parts=['merge_ska_dict/common', 'ska_dict/acc', 'merge_ska_array/common'], caps={'MCAP': nk, 'SCAP': 1, 'RCAP': nk, 'CCAP': ns}, models=['hashbrown', 'ndarray'],
-       sym='%d sample dictionaries over a %d-key universe: presence and IUPAC codes symbolic; append order %s' % (ns, nk, nm), oracle='merged entry = sample base in its own column, 0/- where absent; one row per k-mer of the union; counts; names by sample index; independent of append order',
-       bounds='%d samples, %d keys' % (ns, nk), timeout=tmo, mem_gb=16, dead_witnesses=['conversion returns'])
+# (the variants with a symbolic presence pattern -- append_new_2x2, append_new_3x3 -- exhaust 16 GB and are not registered)
 for m in range(16):
     ob('C03.new.2x2.p%d' % m, ['C03', 'C02', 'C01', 'C07'], 'merge_ska_dict/append', 'append_new_2x2_p%d' % m, tier='thorough', functions=[MD + 'new', MD + 'append', MA + 'new', MA + 'n_sample_kmers', MA + 'iter'], inst='u64',
        needs_parts=['merge_ska_dict/common', 'ska_dict/acc', 'merge_ska_array/common'], caps={'MCAP': 2, 'SCAP': 1, 'RCAP': 2, 'CCAP': 2}, models=['hashbrown', 'ndarray'],
